@@ -302,6 +302,12 @@ theorem crFinish_inv {z : Channel} (h : ChInv z) (lastRow : Nat) : ChInv (crFini
     · intro _; exact h
   exact hw.withCols (Nat.le_refl _) (Nat.le_refl _) (by omega)
 
+theorem crSync_upd {ch : Channel} (h : ChInv ch) : Upd ch (crSync ch) := by
+  unfold crSync
+  split
+  · exact wordBreak_upd h true
+  · exact (wordBreak_upd h true).trans (update_upd ((wordBreak_upd h true).inv h))
+
 theorem carriageReturn_inv {ch : Channel} (h : ChInv ch) (chan : Nat) : ChInv (carriageReturn ch chan) := by
   have hroll := h.roll_pos
   have hwin := h.win
@@ -316,7 +322,7 @@ theorem carriageReturn_inv {ch : Channel} (h : ChInv ch) (chan : Nat) : ChInv (c
   · intro hlt
     exact setCursor_inv ((wordBreak_upd h true).inv h) (by omega) (by omega) (by omega)
   · intro _
-    have h1 := (update_upd ((wordBreak_upd h true).inv h)).inv ((wordBreak_upd h true).inv h)
+    have h1 := (crSync_upd h).inv h
     have h2 := (crMove_upd h1 (ch.hidden != (ch.mode != .popOn))).inv h1
     have h3 := (crClear_upd h2 chan).inv h2
     exact crFinish_inv h3 _
@@ -402,9 +408,13 @@ theorem specialChar_inv {ch : Channel} (h : ChInv ch) (chan c2 : Nat) : ChInv (s
     · intro _; exact (wr_upd h (by omega) _ _).inv h
   · intro _; exact putChar_inv h _
 
+theorem setColourMid_inv {x : Channel} (hx : ChInv x) (k : Nat) : ChInv (setColourMid x k) := by
+  unfold setColourMid; repeat' split
+  all_goals exact hx.withAttr _
+
 theorem midRow_inv {ch : Channel} (h : ChInv ch) (c2 : Nat) : ChInv (midRow ch c2) := by
   unfold midRow
-  exact putCharSpace_inv (setColour_inv (h.withAttr _) _)
+  exact putCharSpace_inv (setColourMid_inv (h.withAttr _) _)
 
 theorem backgroundAttr_inv {ch : Channel} (h : ChInv ch) (c2 : Nat) : ChInv (backgroundAttr ch c2) := by
   unfold backgroundAttr
@@ -423,6 +433,10 @@ theorem pacRelocate_inv {x : Channel} (h1 : ChInv x) {row : Nat} (hrow : row ≤
   have hroll := h1.roll_pos
   have : x.roll ≠ 0 := by omega
   simp only [this, if_false]
+  have hcl : (!pacRow1Clamped && decide (row + 1 < x.roll)) = false := by
+    have : pacRow1Clamped = true := by decide
+    simp [this]
+  simp only [hcl, Bool.false_eq_true, if_false]
   have hw := h1.win
   have hx' : ChInv { x with row1 := row + 1 - x.roll } := by
     obtain ⟨a1, a2, a3, a4, a5, a6, a7, a8, a9, a10, a11⟩ := h1
@@ -461,20 +475,35 @@ theorem pac_inv {ch : Channel} (h : ChInv ch) (chan c1 c2 : Nat) (hc1 : c1 ≤ 7
       · exact hle
     exact pacStyle_inv (pacCursor_inv (wordBreak_inv (h.withAttr _) true) hrow) _ _
 
+theorem clear_len' (p : Page) : p.clear.text.length = p.text.length := rfl
+
+theorem ruErase_upd {ch : Channel} (h : ChInv ch) : Upd ch (ruErase ch) := by
+  unfold ruErase
+  have u1 := eraseMemory_upd h ch.hidden
+  have h1 := u1.inv h
+  have u2 := eraseMemory_upd h1 (!ch.hidden)
+  have h2 := u2.inv h1
+  simp only []
+  split
+  · exact (u1.trans u2).trans ((setPg_upd _ (!ch.hidden) _ (clear_len' _)).trans (event_upd _))
+  · exact u1.trans u2
+
+theorem ruFinish_inv {y : Channel} (h : ChInv y) {roll : Nat} (h2 : 2 ≤ roll) (h4 : roll ≤ 4) :
+    ChInv (ruFinish y roll) := by
+  unfold ruFinish
+  constructor <;> simp [setCursor]
+  · exact h.err
+  · omega
+  · omega
+  · exact h.len0
+  · exact h.len1
+
 theorem rollUpCmd_inv {ch : Channel} (h : ChInv ch) {roll : Nat} (h2 : 2 ≤ roll) (h4 : roll ≤ 4) :
     ChInv (rollUpCmd ch roll) := by
   unfold rollUpCmd
   apply ChInv.ite; · intro _; exact h
   intro _
-  have h1 := eraseMemory_inv h ch.hidden
-  generalize eraseMemory ch ch.hidden = x at h1 ⊢
-  have h2' := eraseMemory_inv h1 (!x.hidden)
-  constructor <;> simp [setCursor]
-  · exact h2'.err
-  · omega
-  · omega
-  · exact h2'.len0
-  · exact h2'.len1
+  exact ruFinish_inv ((ruErase_upd h).inv h) h2 h4
 
 theorem eraseMemory_upd' {ch : Channel} (b : Bool) (hl : (ch.pg b).text.length = 1056) : Upd ch (eraseMemory ch b) := by
   unfold eraseMemory
@@ -684,9 +713,9 @@ theorem chswPages_inv {x : Channel} (hp : PreInv x) (h1 : 1 ≤ x.col1) (h2 : x.
   obtain ⟨a1, a2, a3, a4, a5, a6, a7, a8, a9, a10, a11⟩ := hb
   constructor <;> simp_all
 
-theorem chswChannel_inv {ch : Channel} (hp : PreInv ch) (hh : chswHiddenResetFirst = true ∨ ch.hidden = false) :
-    ChInv (chswChannel ch) := by
-  unfold chswChannel
+theorem chswChannelWith_inv {ch : Channel} (first : Bool) (hp : PreInv ch) (hh : first = true ∨ ch.hidden = false) :
+    ChInv (chswChannelWith first ch) := by
+  unfold chswChannelWith
   have hg : PreInv (chswAttr (chswGeom ch)) ∧ (chswAttr (chswGeom ch)).hidden = ch.hidden
       ∧ (chswAttr (chswGeom ch)).row ≤ 14 ∧ 1 ≤ (chswAttr (chswGeom ch)).roll
       ∧ (chswAttr (chswGeom ch)).row1 + (chswAttr (chswGeom ch)).roll ≤ 15 := by
@@ -695,12 +724,12 @@ theorem chswChannel_inv {ch : Channel} (hp : PreInv ch) (hh : chswHiddenResetFir
     split <;> refine ⟨⟨?_, ?_, ?_⟩, ?_, ?_, ?_, ?_⟩ <;> simp_all
   generalize chswAttr (chswGeom ch) = x at hg ⊢
   obtain ⟨⟨e, l0, l1⟩, hhid, hrow, hroll, hwin⟩ := hg
-  unfold chswCursor
+  unfold chswCursorWith
   rcases hh with hflag | hfalse
   · simp only [hflag, if_true]
     apply chswPages_inv <;> simp_all [setCursor]
     constructor <;> simp_all
-  · by_cases hflag : chswHiddenResetFirst = true
+  · by_cases hflag : first = true
     · simp only [hflag, if_true]
       apply chswPages_inv <;> simp_all [setCursor]
       constructor <;> simp_all
@@ -708,18 +737,18 @@ theorem chswChannel_inv {ch : Channel} (hp : PreInv ch) (hh : chswHiddenResetFir
       apply chswPages_inv <;> simp_all [setCursor]
       constructor <;> simp_all
 
-theorem chsw_inv_of {s : St} (he : s.err = none) (hl : s.chans.length = 9)
-    (hc : ∀ ch ∈ s.chans, PreInv ch ∧ (chswHiddenResetFirst = true ∨ ch.hidden = false)) : Inv s.chsw := by
-  unfold St.chsw
+theorem chsw_inv_of {s : St} (first : Bool) (he : s.err = none) (hl : s.chans.length = 9)
+    (hc : ∀ ch ∈ s.chans, PreInv ch ∧ (first = true ∨ ch.hidden = false)) : Inv (s.chswWith first) := by
+  unfold St.chswWith
   refine ⟨he, by simp [hl], ?_⟩
   intro ch hch
   simp only [List.mem_map] at hch
   obtain ⟨c0, hm, rfl⟩ := hch
-  exact chswChannel_inv (hc c0 hm).1 (hc c0 hm).2
+  exact chswChannelWith_inv first (hc c0 hm).1 (hc c0 hm).2
 
 theorem init_inv : Inv init := by
-  unfold init
-  apply chsw_inv_of rfl (by simp)
+  unfold init St.chsw
+  apply chsw_inv_of _ rfl (by simp)
   intro ch hch
   simp only [List.mem_map] at hch
   obtain ⟨i, _, rfl⟩ := hch
@@ -730,7 +759,7 @@ theorem init_inv : Inv init := by
 
 /-- with the repaired statement order a channel switch keeps the invariant from any state -/
 theorem chsw_inv {s : St} (h : Inv s) (hflag : chswHiddenResetFirst = true) : Inv s.chsw :=
-  chsw_inv_of h.err h.len (fun ch hch => ⟨(h.chs ch hch).pre, Or.inl hflag⟩)
+  chsw_inv_of _ h.err h.len (fun ch hch => ⟨(h.chs ch hch).pre, Or.inl hflag⟩)
 
 
 /-! ## histories -/
@@ -751,6 +780,24 @@ theorem foldl_inv (ops : List Op) (hops : ∀ op ∈ ops, op ≠ .chsw ∨ chswH
   | cons op rest ih =>
     intro s h
     exact ih (fun o ho => hops o (List.mem_cons_of_mem _ ho)) _ (step_inv h op (hops op (List.mem_cons_self ..)))
+
+theorem stepWith_inv (first : Bool) {s : St} (h : Inv s) (op : Op) (hop : op ≠ .chsw ∨ first = true) :
+    Inv (stepWith first s op) := by
+  cases op with
+  | pair f b0 b1 => exact decodePair_inv h _ _ _
+  | fetch n => exact fetchStep_inv h _
+  | chsw =>
+    rcases hop with hne | hflag
+    · exact absurd rfl hne
+    · exact chsw_inv_of first h.err h.len (fun ch hch => ⟨(h.chs ch hch).pre, Or.inl hflag⟩)
+
+theorem foldlWith_inv (first : Bool) (ops : List Op) (hops : ∀ op ∈ ops, op ≠ .chsw ∨ first = true) :
+    ∀ s, Inv s → Inv (ops.foldl (stepWith first) s) := by
+  induction ops with
+  | nil => intro s h; exact h
+  | cons op rest ih =>
+    intro s h
+    exact ih (fun o ho => hops o (List.mem_cons_of_mem _ ho)) _ (stepWith_inv first h op (hops op (List.mem_cons_self ..)))
 
 theorem firstErr_none {s : St} (h : Inv s) : s.firstErr = none := by
   unfold St.firstErr
